@@ -348,6 +348,32 @@ pub fn worker(prop: &dyn Property, tier: Tier, seed: u64, shard: usize, nshards:
 		}
 	}
 
+	// 1b. regression tapes (shard 0 only): inputs on which this check once raised a false alarm
+	// (replays/regress/<ID>-*.json, found by the fuzz stage or a soak); they must pass
+	if shard == 0 && !st.stop {
+		if let Ok(rd) = std::fs::read_dir(verif_root().join("replays").join("regress")) {
+			let mut files: Vec<PathBuf> = rd.flatten().map(|e| e.path()).filter(|p| p.file_name().and_then(|n| n.to_str()).map(|n| n.starts_with(&format!("{}-", prop.id())) && n.ends_with(".json")).unwrap_or(false)).collect();
+			files.sort();
+			for path in files {
+				let Ok(tape) = read_tape(&path) else { continue };
+				let t = match std::fs::read_to_string(&path).ok().and_then(|t| serde_json::from_str::<Value>(&t).ok()).and_then(|v| v["tier"].as_str().map(|s| s.to_string())).as_deref() {
+					Some("thorough") => Tier::Thorough,
+					_ => Tier::Quick,
+				};
+				let mut ctx = Ctx::new(t);
+				let r = run_case(prop, &tape, &mut ctx);
+				st.res.evaluations += 1;
+				*st.res.counters.entry("regression-tapes-replayed".to_string()).or_insert(0) += 1;
+				if let Err(f) = r {
+					if f.oracle != "inconclusive" && f.oracle != "setup" && !st.is_known(&f) {
+						st.report_violation(tape, f, false);
+						break;
+					}
+				}
+			}
+		}
+	}
+
 	// 2. enumerations
 	if !st.stop {
 		for en in prop.enumerations(tier) {
